@@ -381,7 +381,7 @@ EF = dict(dfcc=True, loop_contracts=True, with_unwind=True,
           replace_status={"bi447_next": "discharged by C19.bi447_next", "bui31_next": "discharged by C19.bui31_next", "bi31_next": "discharged by C19.bi31_next",
                           "bui63_next": "discharged by C19.bui63_next", "ymd_get_wday": "discharged by C01.k.wday", "__get_ndom": "discharged by C01.k.wday"},
           solver=["minisat"], mem_gb=28, timeout={"quick": 1500, "thorough": 7200}, replay=False, replay_note="callees replaced by contracts, symbolic container states",
-          defines=["-DRR_INTER_MAX=64U"], tiers=["thorough"])
+          defines=["-DRR_INTER_MAX=64U"])
 O("C09.Sly", ["C09", "C16", "C01"], "h_C09.c", "h_C09_Sly",
   "rrul_fill_Sly: memory safe, returns <= nti and <= COUNT, terminates, output strictly increasing, within [DTSTART, UNTIL], real date-times - for every valid DTSTART, every well-formed container state, INTERVAL 1..64 (thorough tier only: 24 min, 14 GB on this machine)",
   ["rrul_fill_Sly"], **EF)
@@ -417,3 +417,18 @@ O("C16.refill", ["C16", "C01", "C05", "C09"], "h_C16.c", "h_C16_refill",
 # C05.send_task.limits (harness h_C05_send_task_limits exists) is not registered: CBMC's model of variadic calls does not
 # apply the default argument promotions to bit-field arguments (t->max_simul is unsigned:6), so va_arg(ap, int) in the
 # recorder reads out of bounds - a tool limit, the failure is spurious.
+O("C09.dly", ["C09", "C16", "C01"], "h_C09.c", "h_C09_dly",
+  "rrul_fill_dly (Gregorian scale): memory safe incl. the time-of-day enumeration (never beyond the 128-slot cache), returns <= nti and <= COUNT, every loop terminates, occurrences within [DTSTART, UNTIL] - for every valid DTSTART, every well-formed container state, INTERVAL 1..64",
+  ["rrul_fill_dly"], dfcc=True, loop_contracts=True, with_unwind=True,
+  replace=["bi447_next", "bui31_next", "bi31_next", "echs_scale_ndim", "echs_scale_wday", "echs_instant_rescale", "make_enum", "rrul_fill_wly"],
+  replace_status={"bi447_next": "discharged by C19.bi447_next", "bui31_next": "discharged by C19.bui31_next", "bi31_next": "discharged by C19.bi31_next",
+                  "echs_scale_ndim": "discharged for the Gregorian scale by C15.dispatch/C15.greg", "echs_scale_wday": "discharged by C15.dispatch/C15.greg",
+                  "echs_instant_rescale": "identity on the Gregorian scale (C15.rescale.*)", "make_enum": "trusted: 1..24/60/60 entries (not discharged)", "rrul_fill_wly": "trusted: returns <= nti (not discharged)"},
+  solver=["minisat"], mem_gb=28, timeout={"quick": 1500, "thorough": 7200}, replay=False, replay_note="callees replaced by contracts",
+  defines=["-DRR_INTER_MAX=64U"])
+O("C17.shift.days", "C17", "h_C01k.c", "h_C17_shift_days",
+  "shift() with SHIFT=N calendar days (|N| <= 62 quick, <= 366 thorough) on a single candidate of any year 1902..2098: exactly one date comes out, it is the date N days away and it is filed under the year it falls in",
+  ["shift", "unpack_cand", "pack_cand", "__get_ndom"], solver=["minisat", "kissat"], timeout={"quick": 900, "thorough": 7200},
+  kind="bounded", bound={"quick": "|N| <= 62", "thorough": "|N| <= 366"},
+  defines={"quick": ["-DSHIFT_NMAX=62"], "thorough": ["-DSHIFT_NMAX=366"]}, unwind={"quick": 6, "thorough": 16},
+  native_srcs=[x for x in LIBECHSE if x != "evrrul.c"], native_libs=["-lltdl", "-lm"])
